@@ -79,13 +79,15 @@ pub fn run(ctx: &Ctx) -> i32 {
 
     // ---- PaletteMapper
     if ctx.wants_family("mapper") {
-        let idxs = [0u32, 1, 255, 256, 257, 70000];
+        let idxs = [0u32, 1, 255, 256, 257, 70000, 65536, 65791];
         let cols = [[10u8, 20, 30], [200, 100, 50], [10, 30, 20]];
         // index subsets of size 1..=4
         let mut subsets: Vec<Vec<usize>> = Vec::new();
-        for m in 1u32..64 {
-            let s: Vec<usize> = (0..6).filter(|i| m >> i & 1 == 1).collect();
-            if s.len() <= 4 && (thorough || !s.contains(&5) || s.len() <= 2) {
+        // indices 5.. (70000, 65536, 65791) need 65,537+ entry palettes: in the quick tier only alone or in pairs
+        let big = |s: &Vec<usize>| s.iter().any(|i| *i >= 5);
+        for m in 1u32..256 {
+            let s: Vec<usize> = (0..8).filter(|i| m >> i & 1 == 1).collect();
+            if s.len() <= 4 && (thorough || !big(&s) || s.len() <= 2) {
                 subsets.push(s);
             }
         }
@@ -94,7 +96,7 @@ pub fn run(ctx: &Ctx) -> i32 {
         for s in &subsets {
             for asg in product_vec(&vec![3usize; s.len()]) {
                 for ap in 0..5usize {
-                    if ap > 0 && s.contains(&5) && !thorough {
+                    if ap > 0 && big(s) && !thorough {
                         continue;
                     }
                     cases.push((s.clone(), asg.clone(), ap));
@@ -102,7 +104,7 @@ pub fn run(ctx: &Ctx) -> i32 {
             }
         }
         let queries: Vec<[u8; 3]> = vec![[10, 20, 30], [200, 100, 50], [10, 30, 20], [20, 10, 30], [30, 20, 10], [20, 30, 10], [30, 10, 20], [1, 2, 3], [50, 100, 200]];
-        ctx.family("mapper", cases.len() as u64 * 6, "palettes built through real files (new-format chunk): every assignment of colours {c1,c2,c3} (c3 = c1 with green/blue swapped) to every index subset of size <= 4 of {0,1,255,256,257,70000} (filler entries elsewhere) x entry-alpha pattern {mixed, all 0, alternating 255/0, alternating 0/255, all 128} x failure {0,7} x transparent {None,Some(0),Some(9)}; queries: the colours, all channel permutations of c1, absent colours x alpha {0,1,254,255}", true);
+        ctx.family("mapper", cases.len() as u64 * 6, "palettes built through real files (new-format chunk): every assignment of colours {c1,c2,c3} (c3 = c1 with green/blue swapped) to every index subset of size <= 4 of {0,1,255,256,257,70000,65536,65791} (filler entries elsewhere) x entry-alpha pattern {mixed, all 0, alternating 255/0, alternating 0/255, all 128} x failure {0,7} x transparent {None,Some(0),Some(9)}; queries: the colours, all channel permutations of c1, absent colours x alpha {0,1,254,255}", true);
         cases.par_iter().for_each(|(s, asg, ap)| {
             let maxi = s.iter().map(|i| idxs[*i]).max().unwrap();
             let n = maxi as usize + 1;
